@@ -2,6 +2,7 @@ package psim
 
 import (
 	"fmt"
+	"time"
 )
 
 // ---------------------------------------------------------------------------
@@ -38,6 +39,12 @@ func c11Stale(c *Ctx) {
 	twin := c.RunOnce(base, nil)
 	c.Res.Shape = progShape(prog)
 	c.Res.Class = "stale-twin-" + twin.Class()
+	if twin.Class() == "step-limit" || twin.Class() == "stalled" {
+		c.Res.Violations = append(c.Res.Violations, Violation{"C11", "mapped-call-never-completes",
+			"undisturbed run did not terminate: " + lastLines(twin.outBuf.String(), 8), twin.Steps})
+		c.Res.Sample = describeRun(twin, true)
+		return
+	}
 	if twin.Class() != "complete" || len(twin.Panics) > 0 {
 		return
 	}
@@ -113,3 +120,133 @@ func c11Stale(c *Ctx) {
 		c.Res.Sample = s
 	}
 }
+
+// c11Stall: the whole machine freezes (hung file server, suspended VM) for longer
+// than the heartbeat timeout while jobs are running.  When it comes back, mrp may see
+// heartbeats that are more than an hour old before the jobs' monitors get to write
+// new ones: it gives the running attempts up, retries them (transient failure,
+// --autoretry=2) under new uniquifiers - and every one of the old attempts is still
+// alive and carries on.  Several superseded attempts at once race with their
+// replacements; none of what they write may be attributed to the new attempts: the
+// run completes with the undisturbed run's outputs, and no job receives an argument
+// the undisturbed run did not deliver.
+func c11Stall(c *Ctx) {
+	gcfg := swarmGen(c.Plan, c.thorough())
+	gcfg.TypedMaps, gcfg.MapCalls = true, true
+	gcfg.AdvKeys = AdvKeys
+	gcfg.MapBias = true
+	gcfg.ExecStages = false // monitored jobs have heartbeats
+	prog := Generate(c.Plan, gcfg)
+	if c.Plan.Draw(3) == 0 {
+		prog = templateForkOrderProg(c.Plan)
+	}
+	fcfg := &FCfg{MaxLen: 1 + c.Plan.Draw(3), MaxChunks: 1 + c.Plan.Draw(3), Salt: fmt.Sprintf("c11m%d", c.Plan.Draw(100)), KeyAlphabet: AdvKeys}
+	flags := append(baseFlags(c.Plan), "--vdrmode=disable", "--autoretry=2")
+	base := &RunCfg{Prog: prog, FCfg: fcfg, MaxSteps: 80000, Flags: flags}
+	swarmSched(c.Plan, base)
+	twin := c.RunOnce(base, nil)
+	c.Res.Shape = progShape(prog)
+	c.Res.Class = "stall-twin-" + twin.Class()
+	if twin.Class() == "step-limit" || twin.Class() == "stalled" {
+		c.Res.Violations = append(c.Res.Violations, Violation{"C11", "mapped-call-never-completes",
+			"undisturbed run did not terminate: " + lastLines(twin.outBuf.String(), 8), twin.Steps})
+		c.Res.Sample = describeRun(twin, true)
+		return
+	}
+	if twin.Class() != "complete" || len(twin.Panics) > 0 {
+		return
+	}
+	actTwin, err := twin.ReadTopOuts()
+	if err != nil {
+		return
+	}
+	twinOuts := Canon(twin.normFiles(actTwin))
+	twinArgs := map[string]string{}
+	for _, j := range twin.Jobs {
+		twinArgs[j.Key()+":"+j.Phase] = Canon(twin.normFiles(j.Args))
+	}
+	n := 2
+	if c.thorough() {
+		n = 6
+	}
+	for i := 0; i < n; i++ {
+		// the freeze comes while one to three monitored jobs are in a long computation
+		// (ten simulated minutes, heartbeats every two): mrp has seen them running
+		var mon []*JobRec
+		for _, j := range twin.Jobs {
+			if j.Monitor {
+				mon = append(mon, j)
+			}
+		}
+		if len(mon) == 0 {
+			c.Res.Class = "stall-no-monitored-job"
+			return
+		}
+		faults := map[string]string{}
+		for k := 0; k < 1+c.Plan.Draw(3); k++ {
+			j := mon[c.Plan.Draw(len(mon))]
+			faults[j.Key()+":"+j.Phase+"#1"] = "slow"
+		}
+		atJob := 0
+		at := 1 + c.Plan.Draw(120)
+		d := []time.Duration{61 * time.Minute, 75 * time.Minute, 3 * time.Hour, 59 * time.Minute}[c.Plan.Draw(4)]
+		cfg := &RunCfg{Prog: prog, FCfg: fcfg, MaxSteps: 150000, Flags: flags,
+			WMrp: []int{3, 10, 30}[c.Plan.Draw(3)], WJob: 1, WAux: base.WAux, WTime: 1 + c.Plan.Draw(3),
+			MapMode: base.MapMode, MapSalt: base.MapSalt, MarkSuperseded: true,
+			JobFaults: faults, Stalls: []StallSpec{{AtStep: at, AtSlow: true, D: d}}}
+		r := c.RunOnce(cfg, nil)
+		c.Res.Class = "stall-checked"
+		c.Res.Probes["machine-stall-runs"]++
+		given := r.Faults["superseded-attempt-finished"]
+		if given > 0 {
+			c.Res.Probes["runs-with-superseded-attempts"]++
+			c.Res.Nontrivial = true
+		}
+		if given > 1 {
+			c.Res.Probes["runs-with-several-superseded-attempts"]++
+		}
+		add := func(oracle, msg string) {
+			c.Res.Violations = append(c.Res.Violations, Violation{"C11", oracle,
+				fmt.Sprintf("every process frozen for %v, %d steps into the long computation of %v (job %d); %d attempts were given up by mrp, retried, and finished afterwards: %s", d, at, faults, atJob, given, msg), r.Steps})
+		}
+		if len(r.Panics) > 0 {
+			c.Res.Violations = append(c.Res.Violations, Violation{"OBS", "mrp-panic", firstLines(r.Panics[0], 14), r.Steps})
+			continue
+		}
+		if r.Class() == "step-budget" {
+			c.Res.Probes["stall-step-budget"]++
+			continue
+		} else if r.Class() != "complete" {
+			add("stall-broke-the-run", fmt.Sprintf("run ended %s (exit codes %v): %s", r.Class(), r.ExitCodes, lastLines(r.outBuf.String(), 8)))
+		} else {
+			act, err := r.ReadTopOuts()
+			if err != nil {
+				add("stall-broke-the-run", "no top-level outputs: "+err.Error())
+			} else if got := Canon(r.normFiles(act)); got != twinOuts {
+				add("superseded-attempt-changed-outputs", fmt.Sprintf("top-level outputs %s, undisturbed run %s", got, twinOuts))
+			}
+			for _, o := range r.Jobs {
+				if o.Stale || o.Args == nil {
+					continue
+				}
+				k := o.Key() + ":" + o.Phase
+				if want, ok := twinArgs[k]; ok {
+					if got := Canon(r.normFiles(o.Args)); got != want {
+						add("superseded-attempt-reached-a-consumer", fmt.Sprintf("job %s received %s, in the undisturbed run %s", k, got, want))
+						break
+					}
+				}
+			}
+		}
+		if len(c.Res.Violations) > 0 || c.Keep || c.Res.Sample == nil {
+			s := describeRun(r, true)
+			s["fault"] = map[string]interface{}{"stall_steps_into_slow_jobs": at, "slow_jobs": faults, "stall": d.String(), "superseded_attempts": given}
+			s["twin_outs"] = twinOuts
+			c.Res.Sample = s
+		}
+		if len(c.Res.Violations) > 0 {
+			return
+		}
+	}
+}
+
